@@ -3185,20 +3185,23 @@ impl<'w, 'r> LpcSubframeParameters<'w, 'r> {
         for split in usize::from(parameters.order.get())..channel.len() {
             let (previous, current) = channel.split_at(split);
 
+            // the prediction of near full-scale 32-bit input may not fit 32 bits,
+            // so the difference is taken before narrowing
             residuals.push(
-                current[0]
-                    .checked_sub(
-                        (previous
+                i32::try_from(
+                    i64::from(current[0])
+                        - (previous
                             .iter()
                             .rev()
                             .zip(&parameters.coefficients)
                             .map(|(x, y)| *x as i64 * *y as i64)
                             .sum::<i64>()
-                            >> parameters.shift) as i32,
-                    )
-                    // the most negative 32-bit value is not a valid residual
-                    .filter(|r| *r != i32::MIN)
-                    .ok_or(ResidualOverflow)?,
+                            >> parameters.shift),
+                )
+                .ok()
+                // the most negative 32-bit value is not a valid residual
+                .filter(|r| *r != i32::MIN)
+                .ok_or(ResidualOverflow)?,
             );
         }
 
